@@ -1368,3 +1368,40 @@ pub fn k_c08_five_shift_direct_playback() {
     crate::ob::c08::five_shift_direct(&mut KaniSrc);
 }
 
+#[kani::proof]
+pub fn k_c01_sort_lemma() {
+    crate::ob::extra::sort_lemma(&mut KaniSrc);
+}
+
+#[kani::proof]
+pub fn k_c01_sort_lemma_playback() {
+    unsafe { crate::src::REACH_OFF = true; }
+    crate::ob::extra::sort_lemma(&mut KaniSrc);
+}
+
+#[kani::proof]
+#[kani::unwind(66)]
+pub fn k_c15_peel_all() {
+    crate::ob::extra::peel_all(&mut KaniSrc);
+}
+
+#[kani::proof]
+#[kani::unwind(66)]
+pub fn k_c15_peel_all_playback() {
+    unsafe { crate::src::REACH_OFF = true; }
+    crate::ob::extra::peel_all(&mut KaniSrc);
+}
+
+#[kani::proof]
+#[kani::unwind(8)]
+pub fn k_c12_card_token_bytes() {
+    crate::ob::extra::card_token_bytes(&mut KaniSrc);
+}
+
+#[kani::proof]
+#[kani::unwind(8)]
+pub fn k_c12_card_token_bytes_playback() {
+    unsafe { crate::src::REACH_OFF = true; }
+    crate::ob::extra::card_token_bytes(&mut KaniSrc);
+}
+
